@@ -5,6 +5,11 @@ import BiotiteModel.Proofs.C10Ctor
 import BiotiteModel.Proofs.C10Kmers
 import BiotiteModel.Proofs.C10Syncmer
 import BiotiteModel.Proofs.C10Sim
+import BiotiteModel.Proofs.C10Mincode
+import BiotiteModel.Proofs.C10Iter
+import BiotiteModel.Proofs.C10Cached
+import BiotiteModel.Proofs.C10Eq
+import BiotiteModel.Proofs.C10Score
 import BiotiteModel.Gen.C10
 /-!
 # C10 — property theorems (k-mer index tables and selectors)
@@ -166,6 +171,38 @@ theorem C10_get_kmers (a : KAlph) (bucketed : Bool) (nb : Nat) (items : List Ent
     (hbk : bucketed = true → 0 < nb) (hd : bucketed = false → ∀ e ∈ items, e.kmer < nb) :
     q ∈ getKmers (canonTable a bucketed nb items) ↔ ∃ e ∈ items, e.kmer = q :=
   mem_getKmers_canon a bucketed nb items q hbk hd
+
+/-- `get_kmers()` / iteration order: strictly ascending (hence duplicate-free) for every table, direct
+or bucketed; together with `C10_get_kmers` (completeness) it is *the* sorted list of stored k-mers. -/
+theorem C10_get_kmers_sorted (t : Table) : (getKmers t).Pairwise (· < ·) :=
+  getKmers_strict t
+
+/-- `count()` over all k-mers is complete: the per-k-mer counts add up to the number of stored entries. -/
+theorem C10_count_complete (a : KAlph) (nb : Nat) (items : List Entry) (h : ∀ e ∈ items, e.kmer < nb) :
+    (countAll (canonTable a false nb items)).sum = items.length := by
+  rw [countAll_canon]; exact sum_counts nb items h
+
+/-- **`table == other` as a refinement**: for tables as the constructors produce them (`Full`),
+`__eq__` holds iff both are of the same kind with the same base-alphabet size, `k`, slot number and
+the same content slot by slot (same entries in the same order). -/
+theorem C10_table_eq (t o : Table) (ht : t.Full) (ho : o.Full) :
+    tableEq t o = true ↔ t.bucketed = o.bucketed ∧ t.alph.n = o.alph.n ∧ t.alph.k = o.alph.k ∧
+      t.nb = o.nb ∧ t.slots = o.slots :=
+  tableEq_iff t o ht ho
+
+theorem C10_table_eq_constructed (a1 a2 : KAlph) (b1 b2 : Bool) (nb1 nb2 : Nat) (i1 i2 : List Entry) :
+    tableEq (canonTable a1 b1 nb1 i1) (canonTable a2 b2 nb2 i2) = true ↔
+      b1 = b2 ∧ a1.n = a2.n ∧ a1.k = a2.k ∧ nb1 = nb2 ∧
+      canon (hashOf b1 nb1) nb1 i1 = canon (hashOf b2 nb2) nb2 i2 :=
+  tableEq_iff _ _ (canonTable_full a1 b1 nb1 i1) (canonTable_full a2 b2 nb2 i2)
+
+/-- **Defect**: the spacing model is not part of `__eq__`: two tables over *different* k-mer alphabets
+(contiguous vs. spacing `101`) with the same stored codes compare equal. -/
+theorem C10_eq_spacing_defect :
+    tableEq (canonTable ⟨2, 2, none⟩ false 4 [⟨0, 0, 0⟩, ⟨1, 0, 1⟩])
+            (canonTable ⟨2, 2, some [0, 2]⟩ false 4 [⟨0, 0, 0⟩, ⟨1, 0, 1⟩]) = true ∧
+    (⟨2, 2, none⟩ : KAlph) ≠ ⟨2, 2, some [0, 2]⟩ := by
+  decide
 
 /-- `table[kmer]` for the direct table, and for the bucketed table **as long as all k-mer codes are
 below 2³²** (partial: the bucketed `__getitem__` compares only the low 32-bit word). -/
@@ -361,6 +398,39 @@ theorem C10_syncmer_select (n k s : Nat) (hs : 2 ≤ s) (hsk : s < k) (p : Perm)
         ∃ m, leftmostArgmin ord i (k - s + 1) = some m ∧ ∃ o ∈ offs, (o : Int) = (m : Int) - (i : Int) :=
   syncmerSelect_spec n k s hs hsk p offsets offs hoffs seq hlen hn ord happly hmax
 
+/-- **`CachedSyncmerSelector` = `SyncmerSelector`** on every input: once the cache (the boolean table
+of `select_from_kmers` over all k-mer codes) has been built, looking k-mers up in it returns exactly
+what the uncached selector computes, for every list of valid k-mer codes. -/
+theorem C10_cached_syncmer_eq (n k s : Nat) (p : Perm) (offsets : List Int) (mask : List Bool)
+    (hmask : cachedSyncmerMask n k s p offsets = .ok mask) (kmers : List Nat)
+    (hk : ∀ q ∈ kmers, q < n ^ k) :
+    cachedSyncmerFromKmers n k s p offsets kmers = syncmerFromKmers n k s p offsets kmers :=
+  cached_eq n k s p offsets mask hmask kmers hk
+
+/-- **`ScoreThresholdRule.similar_kmers`** (branch-and-bound search, modelled as the depth-first
+recursion the `while pos != -1` loop performs): with any per-symbol bound `maxS` that dominates the
+matrix rows — the pruning bound — the search returns exactly the symbol strings of length `k` over
+the alphabet whose total substitution score with the query k-mer reaches the threshold; nothing is
+pruned wrongly and nothing below the threshold is kept. -/
+theorem C10_similar_kmers (n : Nat) (mat : List Int) (maxS : Nat → Int) (thr : Int)
+    (hb : ∀ x y, y < n → mat[x * n + y]?.getD 0 ≤ maxS x)
+    (qs : List Nat) (hq : qs ≠ []) (ds : List Nat) :
+    ds ∈ bbSearch n mat maxS thr qs 0 ↔
+      ds.length = qs.length ∧ (∀ d ∈ ds, d < n) ∧ pairScore n mat qs ds ≥ thr := by
+  have := bbSearch_spec n mat maxS thr hb qs 0 ds (fun h => absurd h hq)
+  simpa using this
+
+/-- the bound the code uses, `max_scores = np.max(matrix, axis=-1)`, is such a bound; `similar_kmers`
+of a k-mer code splits it into `k` symbols first. -/
+theorem C10_similar_kmers_rowmax (a : KAlph) (hk : 1 ≤ a.k) (mat : List Int) (thr : Int) (q : Nat) (ds : List Nat) :
+    ds ∈ bbSearch a.n mat (rowMax a.n mat) thr (splitCode a.n a.k q) 0 ↔
+      ds.length = a.k ∧ (∀ d ∈ ds, d < a.n) ∧ pairScore a.n mat (splitCode a.n a.k q) ds ≥ thr := by
+  have hne : splitCode a.n a.k q ≠ [] := by
+    intro h
+    have := splitCode_length a.n a.k q
+    rw [h] at this; simp at this; omega
+  rw [C10_similar_kmers a.n mat _ thr (fun x y hy => rowMax_bound a.n mat x y hy) _ hne, splitCode_length]
+
 /-- Syncmer filter: index `i` is selected iff the relative position of its minimum s-mer is one of
 the (normalised) offsets. -/
 theorem C10_syncmer_filter (offs : List Nat) (rel : List Int) (i : Nat) :
@@ -382,30 +452,32 @@ theorem C10_syncmer_filter (offs : List Nat) (rel : List Int) (i : Nat) :
       simp only [List.any_eq_true, beq_iff_eq]; exact ⟨o, ho, heq⟩
     simp [this]
 
-/-- Min-code selection: position `i` is selected iff its permuted code `v` satisfies
-`v < offset + range / compression` (stated without division). -/
-theorem C10_mincode (a : KAlph) (c : Nat) (hc : 1 ≤ c) (kmers : List Nat) (i q : Nat) :
-    (∃ l, mincodeSelect a c .ident kmers = .ok l ∧ ((i, q) ∈ l ↔ kmers[i]? = some q ∧ (q : Int) * c < a.size)) := by
-  unfold mincodeSelect
-  have : ¬ c < 1 := by omega
-  simp only [this, if_false, Perm.apply]
-  refine ⟨_, rfl, ?_⟩
-  simp only [List.mem_filterMap]
-  constructor
-  · rintro ⟨⟨⟨i', q'⟩, v⟩, hm, hsel⟩
-    rw [mem_zipIdx_zip] at hm
-    obtain ⟨hk, hv⟩ := hm
-    simp only [List.getElem?_map, hk, Option.map_some, Option.some.injEq] at hv
-    split at hsel
-    · rename_i hlt
-      simp only [Option.some.injEq, Prod.mk.injEq] at hsel
-      obtain ⟨rfl, rfl⟩ := hsel
-      subst hv
-      exact ⟨hk, by simpa using hlt⟩
-    · simp at hsel
-  · rintro ⟨hk, hlt⟩
-    refine ⟨((i, q), (q : Int)), (mem_zipIdx_zip _ _ _ _ _).2 ⟨hk, by simp [hk]⟩, ?_⟩
-    first | simpa using hlt | (simp; exact hlt)
+/-- **Min-code selection for any permutation** (none, `RandomPermutation`, `FrequencyPermutation`, a
+custom table), the permutation taken as the function `p.fn` on k-mer codes: position `i` with k-mer
+`q` is selected iff its permuted code `v = p.fn q` is below the threshold
+`offset + range / compression`, evaluated in exact arithmetic (`(v - offset) * compression < range`,
+which for `compression > 0` is the same as `v < offset + range / compression` over ℚ).
+Remaining assumption (not proved, pinned by the `mincode-boundary` correspondence stream): the real
+code compares against the float64 value of that threshold. -/
+theorem C10_mincode (a : KAlph) (c : Nat) (hc : 1 ≤ c) (p : Perm) (kmers : List Nat) (ord : List Int)
+    (hp : p.apply kmers = .ok ord) :
+    ∃ l, mincodeSelect a c p kmers = .ok l ∧
+      ∀ i q, (i, q) ∈ l ↔ kmers[i]? = some q ∧
+        ∃ v, p.fn q = .ok v ∧ (v - p.offset) * (c : Int) < p.range a.size :=
+  mincodeSelect_spec a c hc p kmers ord hp
+
+/-- `permute` is the element-wise application of `p.fn`; `RandomPermutation` is the LCG with the
+constants regenerated from `permutation.pyx`, reduced mod 2⁶⁴ and read as a signed 64-bit value, and
+stays inside the `[min, max]` range the threshold is computed from. -/
+theorem C10_permutation (p : Perm) (kmers : List Nat) (q : Nat) :
+    p.apply kmers = mapMExcept p.fn kmers ∧
+    (lcg q = if (Gen.C10.lcgA * q + Gen.C10.lcgC) % 2 ^ 64 < 2 ^ 63
+        then (((Gen.C10.lcgA * q + Gen.C10.lcgC) % 2 ^ 64 : Nat) : Int)
+        else (((Gen.C10.lcgA * q + Gen.C10.lcgC) % 2 ^ 64 : Nat) : Int) - 2 ^ 64) ∧
+    Perm.offset .random ≤ lcg q ∧ lcg q - Perm.offset .random < Perm.range 0 .random :=
+  ⟨perm_apply_eq p kmers, rfl, (lcg_range q).1, by
+    have := lcg_range q
+    simp only [Perm.offset, Perm.range]; omega⟩
 
 /-- **Defect**: `fuse` accepts a symbol code equal to the alphabet length (`>` instead of `>=`). -/
 theorem C10_fuse_defect : fuseChecked ⟨4, 2, none⟩ [4, 0] = .ok 16 := by decide
@@ -435,6 +507,8 @@ example : windowMinima [3, 2, 1, 0, 1, 2, 3, 0] 3 = [some 2, some 3, some 3, som
 example : ∀ v ∈ ([3, 2, 1, 0, 1, 2, 3, 0] : List Int), v < int64Max := by decide
 example : filterSyncmer [0, 2] [0, 1, 2, 0] = [0, 2, 3] := by decide
 example : mincodeSelect ⟨2, 2, none⟩ 2 .ident [0, 1, 2, 3] = .ok [(0, 0), (1, 1)] := by decide
+example : mincodeSelect ⟨3, 2, none⟩ 2 (.freq [5, 0, 0, 1, 0, 0, 0, 0, 2]) [0, 1, 3, 8] = .ok [(1, 1)] := by decide
+example : mincodeSelect ⟨2, 2, none⟩ 2 .random [0, 1, 2, 3] = .ok [(1, 1), (2, 2)] := by decide
 example : pickleRoundTrip (canonTable ⟨2, 2, none⟩ true 2 [⟨1, 0, 0⟩, ⟨2, 0, 1⟩, ⟨3, 5, 4⟩])
     = canonTable ⟨2, 2, none⟩ true 2 [⟨1, 0, 0⟩, ⟨2, 0, 1⟩, ⟨3, 5, 4⟩] := by decide
 
@@ -462,5 +536,12 @@ example : matchKmersSim (scoreSim ⟨2, 2, none⟩ [1, 0, 0, 1] 1)
     (canonTable ⟨2, 2, none⟩ false 4 [⟨1, 0, 0⟩, ⟨2, 0, 1⟩, ⟨1, 0, 2⟩]) [1, 2] [false, true]
     = [(1, 0, 1)] := by decide
 example : scoreSim ⟨2, 2, none⟩ [1, 0, 0, 1] 1 2 = [0, 2, 3] := by decide
+
+example : cachedSyncmerMask 2 3 2 .ident [0] = .ok [true, true, true, true, false, false, false, true] := by decide
+example : cachedSyncmerFromKmers 2 3 2 .ident [0] [5, 1, 7] = .ok [(1, 1), (2, 7)] := by decide
+example : tableEq (canonTable ⟨2, 2, none⟩ true 2 [⟨1, 0, 0⟩]) (canonTable ⟨2, 2, none⟩ true 2 [⟨1, 0, 1⟩]) = false := by decide
+
+example : bbSearch 2 [1, 0, 0, 1] (rowMax 2 [1, 0, 0, 1]) 1 [1, 0] 0 = [[0, 0], [1, 0], [1, 1]] := by decide
+example : bbSim ⟨2, 2, none⟩ [1, 0, 0, 1] 1 2 = [0, 2, 3] ∧ scoreSim ⟨2, 2, none⟩ [1, 0, 0, 1] 1 2 = [0, 2, 3] := by decide
 
 end BiotiteModel.C10
